@@ -143,7 +143,14 @@ def c_snapshot_corr(ctx, args):
     return None
 
 
-CHECKS = {'sample': c_sample, 'density': c_density, 'shadow': c_shadow, 'snapshot_corr': c_snapshot_corr}
+def c_history(ctx, args):
+    """a query on ONE reused object, after in-place (often sign-only) updates, equals the same query on a fresh equal object"""
+    from vlib import history
+    kind, n, seed, steps, which = args
+    return history.reused_object_history(ctx, kind, n, seed, steps, which)
+
+
+CHECKS = {'sample': c_sample, 'density': c_density, 'shadow': c_shadow, 'snapshot_corr': c_snapshot_corr, 'history': c_history}
 
 
 def run(ctx):
@@ -167,3 +174,6 @@ def run(ctx):
         do(ctx, 'shadow', [t, kind, rng.randrange(10 ** 6), 3], nontrivial=('sh', kind, it))
         do(ctx, 'snapshot_corr', [t, gen.rtableau(rng, ctx.model, n, r=0), rng.randrange(10 ** 6)], nontrivial=('sc', it))
         ctx.res.count('shadow_' + kind)
+    # histories on one reused object: lazily kept results must follow every in-place update
+    for _ in range(int(40 * B)):
+        do(ctx, 'history', ['state', rng.randint(1, 4), rng.randrange(10 ** 6), rng.randint(4, 12), ['density_matrix', 'stabilizers']], nontrivial=('h', 'state', ctx.res.evaluations))
